@@ -52,14 +52,17 @@ def subset(spec, keep):
 
 
 class Shrinker(object):
-    def __init__(self, judge, target, budget=200):
+    def __init__(self, judge, target, budget=200, wall=300.0):
+        import time
         self.judge = judge
         self.target = target
         self.budget = budget
         self.tried = 0
+        self.deadline = time.time() + wall      # minimisation is a service, not a verdict: bounded in candidates and in time
 
     def fails(self, spec):
-        if self.tried >= self.budget:
+        import time
+        if self.tried >= self.budget or (self.tried > 0 and time.time() > self.deadline):
             return None
         self.tried += 1
         try:
